@@ -375,6 +375,16 @@ def share_length_domains(cv_a, cv_b, paths):
         cv_b._ld[p] = list(dom)
 
 
+def share_length_domains_between(cv, pa, pb):
+    """two sibling entry points of one fact set explored over the union of their representative lengths"""
+    ba, bb = cv.F.bodies.get(pa), cv.F.bodies.get(pb)
+    if ba is None or bb is None or cv.shape(ba)[0] is None or cv.shape(bb)[0] is None:
+        return
+    dom = sorted(set(cv.length_domain(ba)) | set(cv.length_domain(bb)))
+    cv._ld[pa] = dom
+    cv._ld[pb] = list(dom)
+
+
 def outcome_map_diff(a, b):
     """abstract inputs on which two outcome maps of one entry point differ; a length that only one side split by first byte is
     compared byte by byte with the other side's single answer for that length"""
